@@ -423,6 +423,10 @@ class is_flag_active_visitor<Flag, flag_and>""")]),
                         [=]() {return boost::msm::front::puml::detail::cleanup_token(guard_func().substr(or_pos + 2)); })) > {};
             }
             else if constexpr (and_pos != std::string::npos)""")]),
+ dict(name='revert-d34-back-kleene-matches-completion', prop='C18', rule='C01.plan', edits=[('include/boost/msm/back/dispatch_table.hpp', """                                    ::boost::mpl::and_<
+                                        ::boost::msm::is_kleene_event<transition_event< ::boost::mpl::placeholders::_> >,
+                                        ::boost::mpl::not_<typename is_completion_event<Event>::type>
+                                        >""", """                                    ::boost::msm::is_kleene_event<transition_event< ::boost::mpl::placeholders::_> >""")]),
  dict(name='revert-d20-puml-terminate-suffix', prop='C14', rule='C14.puml', edits=[('include/boost/msm/front/puml/puml.hpp', """cleanup_token(stt().substr(endl_before_pos + 1, arrow_pos - endl_before_pos - 1)) == state_name())""", """cleanup_token(stt().substr(state_pos, arrow_pos - state_pos)) == state_name())""")]),
  dict(name='flagfold-back11-early-break', prop='C17', rule='C17.pure', edits=[(B11, """            res = typename BinaryOp::type() (res,(*flags_entries[ m_states[i] ])(*this));""", """            res = typename BinaryOp::type() (res,(*flags_entries[ m_states[i] ])(*this));
             if (res) break;""")]),
